@@ -617,8 +617,11 @@ impl LinkCongestionState {
         let sane_observed = (observed_bps as f64).min(CC_OUTLIER_FACTOR * baseline) as u64;
 
         // First non-bootstrap tick: seed the target from observed throughput
-        // (or a conservative floor if no traffic yet).
-        if self.target_bps == MIN_TARGET_BPS {
+        // (or a conservative floor if no traffic yet). Keyed on the previous
+        // state, not on `target_bps == MIN_TARGET_BPS`: a target that back-off
+        // or drain legitimately drove to the floor must climb back through the
+        // bounded AI step, not be re-seeded to >= INITIAL_TARGET_BPS.
+        if self.state == CcState::Bootstrap {
             let seed = sane_observed.max(INITIAL_TARGET_BPS);
             self.target_bps = seed.clamp(MIN_TARGET_BPS, MAX_TARGET_BPS);
         }
